@@ -1,5 +1,5 @@
 """C08: an online backup taken under load is a consistent snapshot."""
-import hashlib, re
+import time, hashlib, re
 from vlib import common as C
 from checks import _conc as K
 
@@ -469,6 +469,9 @@ def explore(ctx, hs, drv, n_sched, n_load, n_tsan, label):
         for c in cases[:1]:
             ctx.sample(dict(case=c[0], meta=c[2], lines=c[1][:6] + c[1][-8:]))
         for i in range(0, len(cases), 10):
+            if len(ctx.violations) >= 3 and time.time() - ctx.t0 > 300:
+                ctx.notes.append("exploration cut short after %d of %d cases: violations already reported and 5 minutes used" % (i, len(cases)))
+                break
             part = cases[i:i + 10]
             res = K.run_cases(hs[variant], [(n_, ls) for n_, ls, m in part], variant=variant, timeout=900)
             for n_, ls, m in part:
